@@ -18,9 +18,14 @@ namespace Dc4bcVerif.Props.C20Node
 open Dc4bcVerif.Gen Dc4bcVerif.Model Dc4bcVerif.Model.Node Dc4bcVerif.Lemmas.NodeLocal Dc4bcVerif.Props
 
 theorem reinit_existing_round_noop (st : NodeSt) (req : ReinitReq) (now : Time) (payloadOf : Tasks.Msg → Bytes)
-    (h : (lookupS st.rounds req.dkgId).isSome = true) :
+    (hb : blankId req.dkgId = false) (h : (lookupS st.rounds req.dkgId).isSome = true) :
     (reinitDKG st req now payloadOf).st = st ∧ (reinitDKG st req now payloadOf).out = .ok := by
-  unfold reinitDKG; simp [h]
+  unfold reinitDKG; simp [h, hb]
+
+/-- whatever the file says, a re-initialisation of a round that exists leaves the node as it was -/
+theorem reinit_existing_round_same_state (st : NodeSt) (req : ReinitReq) (now : Time) (payloadOf : Tasks.Msg → Bytes)
+    (h : (lookupS st.rounds req.dkgId).isSome = true) : (reinitDKG st req now payloadOf).st = st := by
+  unfold reinitDKG; split <;> simp [h]
 
 /-- rounds and signature stores other than `R`'s are the same in `a` and `b` -/
 def OthersSame (R : String) (a b : NodeSt) : Prop :=
@@ -56,6 +61,8 @@ theorem replayed_round (self R : String) (im : InnerMsg) (h : replayed self R im
 theorem reinit_other_rounds_untouched (st : NodeSt) (req : ReinitReq) (now : Time) (payloadOf : Tasks.Msg → Bytes) :
     OthersSame req.dkgId st (reinitDKG st req now payloadOf).st := by
   unfold reinitDKG
+  split
+  · exact OthersSame.refl _ _
   split
   · exact OthersSame.refl _ _
   · have hloop : OthersSame req.dkgId st (reinitLoop st.self req.dkgId st.skipVerify now payloadOf st req.inner).1 := by
@@ -139,7 +146,11 @@ theorem reinit_keys (st : NodeSt) (req : ReinitReq) (now : Time) (payloadOf : Ta
         some (inst.dumpState, { inst.payload with
           pubKeys := req.participants.foldl (fun acc nk => assocSet acc nk.1 nk.2) inst.payload.pubKeys }) := by
   unfold reinitDKG at hok ⊢
-  simp only [hnew, Bool.false_eq_true, ↓reduceIte] at hok ⊢
+  have hb : blankId req.dkgId = false := by
+    cases hbb : blankId req.dkgId with
+    | false => rfl
+    | true => simp [hbb] at hok
+  simp only [hb, hnew, Bool.false_eq_true, ↓reduceIte] at hok ⊢
   cases hl : reinitLoop st.self req.dkgId st.skipVerify now payloadOf st req.inner with
   | mk st1 ops =>
     simp only [hl] at hok ⊢
